@@ -6,7 +6,7 @@
    index 0 is the default expression; [vals k] is the value of expression k. *)
 
 From Coq Require Import List ZArith QArith.
-From NR Require Import Model.TimeDep Proofs.TimeDep_proofs.
+From NR Require Import Model.TimeDep Proofs.TimeDep_proofs Proofs.TimeDep_accepted.
 Import ListNotations.
 Open Scope Q_scope.
 
@@ -91,3 +91,36 @@ Theorem C17_overlap_accepted_refuted :
     td_elems (fst (set_expressions td_empty ov_frames)) = td_elems (fst (set_expressions td_empty [(54000, 54120, 2%nat)]%Z)).
 Proof. exact C17_overlap_accepted_refuted_proof. Qed.
 Print Assumptions C17_overlap_accepted_refuted.
+
+(* "For ANY set of time frames": the theorems above are about layouts with
+   pairwise disjoint frames.  With the repaired overlap test they extend to
+   EVERY list of well-formed frames (minute-aligned, non-empty, inside the
+   horizon, a frame expression each: frame_ok) that the library accepts,
+   whatever the order of the calls and without any disjointness hypothesis -
+   an overlapping frame is never accepted.  If every call is answered ok the
+   expression built is well-formed (or still empty) ... *)
+Theorem C17_accepted_is_well_formed : forall fs,
+  Forall frame_ok fs ->
+  Forall (fun r => r = SetOk) (snd (set_expressions td_empty fs)) ->
+  (fs = [] /\ fst (set_expressions td_empty fs) = td_empty) \/ wf_td (fst (set_expressions td_empty fs)).
+Proof. exact accepted_is_wf_proof. Qed.
+Print Assumptions C17_accepted_is_well_formed.
+
+(* ... durations are never negative ... *)
+Theorem C17_accepted_nonneg : forall fs vals v x,
+  Forall frame_ok fs -> Forall (fun r => r = SetOk) (snd (set_expressions td_empty fs)) ->
+  vals_ok vals -> 0 <= v ->
+  value_at_value (fst (set_expressions td_empty fs)) vals v = Val x -> 0 <= x.
+Proof. exact accepted_nonneg_proof. Qed.
+Print Assumptions C17_accepted_nonneg.
+
+(* ... and leaving later never arrives earlier.  (For the code before the
+   repair this is false: C17_overlap_accepted_refuted above.) *)
+Theorem C17_accepted_fifo : forall fs vals v1 v2 x1 x2,
+  Forall frame_ok fs -> Forall (fun r => r = SetOk) (snd (set_expressions td_empty fs)) ->
+  vals_ok vals -> 0 <= v1 -> v1 <= v2 ->
+  value_at_value (fst (set_expressions td_empty fs)) vals v1 = Val x1 ->
+  value_at_value (fst (set_expressions td_empty fs)) vals v2 = Val x2 ->
+  v1 + x1 <= v2 + x2.
+Proof. exact accepted_fifo_proof. Qed.
+Print Assumptions C17_accepted_fifo.
